@@ -123,11 +123,6 @@ func init() {
 				return "MODIFIED " + bad
 			}
 			rs, dup := canonSet(spec, r)
-			if (r == "ERR") != (base == "ERR") {
-				// some element is invalid and the operation stopped before or after seeing it depending on the order:
-				// invalid argument lists are outside C16's quantifier (the early return itself is known finding D14 of C15)
-				return "OK"
-			}
 			if dup && spec.nodup {
 				return "DUPLICATE in result of a permuted/duplicated input"
 			}
